@@ -85,7 +85,7 @@ def run(tier, seed):
     _, _, mm2 = validate(st, "selftest")
     chk.cov["selftest"] = {"corrupted_events": n, "rejected": len(mm2), "ok": len(mm2) == n and n >= 2}
     if not chk.cov["selftest"]["ok"]:
-        raise ToolError("self-test: corrupted frames were not all rejected")
+        chk.selftest_failed("corrupted frames were not all rejected")
     with open(first) as f:
         chk.sample([json.loads(next(f)) for _ in range(3)])
     chk.cov["traces_validated_against_impl"] = frames
